@@ -216,7 +216,7 @@ BsInv ==
 (* CIE alphabets *)
 DebugCies == << MkCie(32, 1, <<>>, 4, 1, -8, 16),
                 MkCie(64, 3, <<>>, 4, 2, -4, 300),
-                [MkCie(32, 4, <<>>, 8, 1, 8, 7) EXCEPT !.ins = <<0>>] >>
+                [MkCie(32, 4, <<ChZ, ChR>>, 8, 1, 8, 7) EXCEPT !.ins = <<0>>, !.renc = 0] >>   \* zR, absptr: FDE addresses at the CIE's size
 EhCies == << MkCie(32, 1, <<>>, 4, 1, -8, 16),
              [MkCie(32, 1, <<ChZ, ChR>>, 4, 2, -4, 16) EXCEPT !.renc = 27],
              [MkCie(64, 3, <<ChZ, ChP, ChL, ChR>>, 4, 1, -8, 300)
@@ -316,16 +316,40 @@ AugCie(kind, a, fmt, ver) ==
     [MkCie(fmt, ver, a, 4, 1, -8, 16)
         EXCEPT !.lenc = 27, !.penc = 0, !.praw = B8(305419896), !.renc = 27, !.augx = IF Len(a) % 2 = 0 THEN <<>> ELSE <<7, 7>>]
 AugInit == c = [a |-> <<>>, kind |-> "eh", rej |-> FALSE]
+(* "v4" states (same run): .debug_frame version-4 CIEs whose address_size field is       *)
+(* independent of the section's default address size, with augmentations (the reader     *)
+(* accepts them in .debug_frame) and address-sized / fixed-size pointer encodings: the    *)
+(* FDE's initial location, range and LSDA and the personality are decoded with the CIE's  *)
+(* own address size.                                                                      *)
+V4Augs == {<<>>, <<ChZ>>, <<ChZ, ChR>>, <<ChZ, ChL>>, <<ChZ, ChL, ChR>>, <<ChZ, ChP, ChL, ChR>>, <<ChZ, ChR, ChP>>}
+V4Encs == {0, 16, 3, 27, 4, 128}           \* absptr, pcrel|absptr, udata4, pcrel|sdata4, udata8, indirect|absptr
+V4Sizes == IF Slim THEN {<<4, 4>>, <<4, 8>>, <<8, 4>>, <<8, 8>>, <<2, 8>>, <<8, 2>>}
+           ELSE {<<sa, ca>> : sa \in {2, 4, 8}, ca \in {2, 4, 8}}
+IsV4(st) == "x" \in DOMAIN st
 AugNext ==
-    \/ /\ ~c.rej /\ c.a = <<>> /\ c.kind = "eh"
+    \/ /\ ~IsV4(c) /\ ~c.rej /\ c.a = <<>> /\ c.kind = "eh"
        /\ \/ c' = [a |-> <<ChZ>>, kind |-> "eh", rej |-> FALSE]
           \/ c' = [a |-> <<>>, kind |-> "debug", rej |-> FALSE]
           \/ \E r \in RejectAugs : \E k \in {"eh", "debug"} : c' = [a |-> r, kind |-> k, rej |-> TRUE]
-    \/ /\ ~c.rej /\ c.a = <<>> /\ c.kind = "debug"
+          \/ \E sz \in V4Sizes : c' = [a |-> <<>>, kind |-> "debug", rej |-> FALSE, x |-> [st |-> 1, sa |-> sz[1], ca |-> sz[2]]]
+    \/ /\ ~IsV4(c) /\ ~c.rej /\ c.a = <<>> /\ c.kind = "debug"
        /\ c' = [a |-> <<ChZ>>, kind |-> "debug", rej |-> FALSE]
-    \/ /\ ~c.rej /\ c.a # <<>>
+    \/ /\ ~IsV4(c) /\ ~c.rej /\ c.a # <<>>
        /\ \E ch \in AugLetters : ~HasCh(c.a, ch) /\ c' = [c EXCEPT !.a = Append(c.a, ch)]
+    \/ /\ IsV4(c) /\ c.x.st = 1
+       /\ \E a \in V4Augs : \E e \in V4Encs :
+            c' = [c EXCEPT !.a = a, !.x = [st |-> 2, sa |-> c.x.sa, ca |-> c.x.ca, enc |-> e]]
 AugInv ==
+    IF IsV4(c) THEN
+        c.x.st = 2 =>
+            LET fmt == IF c.x.enc \in {4, 27} THEN 64 ELSE 32
+                cie == [MkCie(fmt, 4, c.a, c.x.ca, 1, -8, 16)
+                           EXCEPT !.lenc = c.x.enc, !.penc = c.x.enc, !.praw = B8(4660), !.renc = c.x.enc]
+                es0 == << cie, [MkFde(32, 1, B8(4096 + 64), B8(32), <<2, 0>>) EXCEPT !.lsda = B8(5000)] >>
+                es  == Concretize("debug", es0, c.x.sa, SecEB)
+            IN Emit(Case("v4", "debug", c.x.sa, (c.x.sa + c.x.enc) % 3 # 0, es, SecEB, NoBases, NoHdr, {}, FALSE)
+                    @@ [aug |-> c.a, casz |-> c.x.ca, enc |-> c.x.enc])
+    ELSE
     \A fv \in {<<32, 1>>, <<64, 3>>, <<32, 4>>} :
         LET cie == AugCie(c.kind, c.a, fv[1], fv[2])
             es0 == << cie, [MkFde(32, 1, B8(4096 + 64), B8(32), <<2, 0>>) EXCEPT !.lsda = B8(77777), !.augx = <<9>>] >>
